@@ -12,6 +12,7 @@ import StepModel.ComplexSatO5
 import StepModel.ComplexFuel
 import StepModel.ComplexBuildWF
 import StepModel.ComplexBuildOK
+import StepModel.ComplexMarks10
 /-!
 # C08 — complex instances are accepted exactly when the supertype constraints allow them
 
@@ -345,6 +346,41 @@ theorem C08_accept_one_list_partial (c : Collect) (parts : List Name) (hc : ∀ 
 /-- the hypotheses are satisfiable, on a list with an OrList: `a SUPERTYPE OF (ONEOF(b, c) ANDOR d)`, `#n=(D()A()B())` -/
 example : ∃ h ∈ exOneofAndorTree, ∃ Y ∈ denote h, ∀ y ∈ Y, y ∈ [3, 0, 1] :=
   C08_accept_contains_derivation exOneofAndorTree [] [3, 0, 1] (by decide) C08_oneof_legal_accepted.1
+
+/-- **Soundness of the matcher with OrLists** (partial: requests without multiply-inheriting members — with them
+the statement is false, `C08_sound_witness`; OrLists shorter than `LISTEND`, `smallOrT` — without that the real matcher
+did not even terminate, fixes/C08-3).  For every collect of the emitted shape, **any nesting of ONEOF/AND/ANDOR lists,
+repeated leaf names included** (the `OR(b, AND(b, …))` of a non-abstract sub-supertype), and every such request: if
+`supports` accepts, the request is — as a set — one of the name sets some list derives (`evalB`): every AND operand
+present, a non-empty selection of every ANDOR, **exactly one alternative of every ONEOF**, and nothing else.
+Proved with the marks explicit (`markAt`, `holds`): through `matchNonORs`, `matchORs` (every alternative of an OrList is
+tried and unmarked again, then `acceptChoice` re-marks the first choice with ORMARK), `unmarkAll`, `acceptChoice` and the
+whole of `tryNext` (backwards scan, forward re-acceptance) the frame invariant "a member is marked iff exactly one
+SimpleList holds it, with the same mark value" and the structure invariant "an OrList's marks sit in its `choice` child
+only; below a list that counts only lists that count hold marks; UNSATISFIED children of AndOr/OrLists hold nothing" are
+kept; MATCHALL is only ever reported when every member is marked; a list that reports NOMORE is left with its OrLists
+holding nothing — which is what makes the forward loop's re-acceptance of later candidates sound; at an acceptance the
+held names therefore extend to a derivation inside the request (`claim`, using the `viable` semantics of
+`C08_accept_contains_derivation`) and, all members being marked, equal it. -/
+theorem C08_sound_partial (c : Collect) (parts : List Name) (hc : ∀ h ∈ c, headWF h = true)
+    (hsm : ∀ h ∈ c, smallOrT h) (hs : supports c [] parts = .ok true) : evalB c [] parts = true :=
+  supports_sound c parts hc hsm hs
+
+/-- the hypotheses are satisfiable, on a list with an OrList: `a SUPERTYPE OF (ONEOF(b, c) ANDOR d)`, `#n=(D()A()B())` -/
+example : evalB exOneofAndorTree [] [3, 0, 1] = true :=
+  C08_sound_partial exOneofAndorTree [3, 0, 1] (by decide)
+    (by intro h hh; simp only [exOneofAndorTree, List.mem_singleton] at hh; subst hh
+        simp only [smallOrT, smallOrTL, and_true, List.length_cons, List.length_nil]; decide)
+    C08_oneof_legal_accepted.1
+
+/-- … and with `C08_eval_legal_partial`: on a single-supertype schema, **an accepted complex instance is legal**
+(sets with at least two members; the collect being the one exp2cxx emits). -/
+theorem C08_accept_legal_partial {s : Schema} {lvl : Name → Nat} (W : ForestWF s lvl) (hx : s.exprsOK)
+    (fuel : Nat) (c : Collect) (hc : collectOf s fuel = some c) (hsm : ∀ h ∈ c, smallOrT h)
+    (parts : List Name) (h2 : ∃ a ∈ parts, ∃ b ∈ parts, a ≠ b) (hs : supports c [] parts = .ok true) :
+    Legal s parts = true :=
+  (C08_eval_legal_partial W fuel c hc parts h2).mp
+    (C08_sound_partial c parts (collectOf_headWF s hx fuel c hc) hsm hs)
 
 /-- **Every list exp2cxx's construction emits has the shape the matcher theorems assume.**  For every schema whose
 ONEOFs have at least one operand (`exprsOK` — the EXPRESS grammar) and every fuel, each list of `collectOf s fuel` is
